@@ -1,1 +1,247 @@
-// placeholder
+// Included into /repo/macros/src/lib.rs under cfg(ts_rs_verif) (see the hook at the end of that
+// file). Everything lives in a test-only module: a normal build of the derive crate gets nothing.
+//
+// The module deliberately touches as little of the crate's internals as possible: `expand()`
+// mirrors the five lines of `entry()` (types::struct_def / types::enum_def + into_impl) and all
+// checks look only at the produced token stream / error / panic.
+
+#[cfg(test)]
+#[allow(unused, dead_code, clippy::all)]
+mod verif_harness {
+    use std::{
+        collections::{BTreeMap, BTreeSet, HashSet},
+        panic::{catch_unwind, AssertUnwindSafe},
+    };
+
+    use proc_macro2::{TokenStream, TokenTree};
+    use proptest::{
+        prelude::*,
+        test_runner::{Config, RngAlgorithm, TestRng, TestRunner},
+    };
+    use serde_json::{json, Value};
+
+    mod serde_case {
+        include!(env!("VERIF_SERDE_CASE_RS"));
+    }
+
+    include!("c09.rs");
+    include!("c16.rs");
+    include!("c10.rs");
+
+    pub enum Expanded {
+        Ok(TokenStream),
+        Err(String),
+        Panic(String),
+        /// the generated text is not a Rust item at all (generator problem, never a violation)
+        NotAnItem(String),
+    }
+
+    /// The body of `entry()` on source text, under catch_unwind.
+    pub fn expand(src: &str) -> Expanded {
+        let item: syn::Item = match syn::parse_str(src) {
+            Ok(i) => i,
+            Err(e) => return Expanded::NotAnItem(e.to_string()),
+        };
+        let res = catch_unwind(AssertUnwindSafe(|| -> syn::Result<TokenStream> {
+            let (ts, ident, generics) = match item {
+                syn::Item::Struct(s) => (crate::types::struct_def(&s)?, s.ident, s.generics),
+                syn::Item::Enum(e) => (crate::types::enum_def(&e)?, e.ident, e.generics),
+                _ => return Err(syn::Error::new(proc_macro2::Span::call_site(), "unsupported item")),
+            };
+            Ok(ts.into_impl(ident, generics))
+        }));
+        match res {
+            Ok(Ok(ts)) => Expanded::Ok(ts),
+            Ok(Err(e)) => Expanded::Err(e.to_string()),
+            Err(p) => Expanded::Panic(
+                p.downcast_ref::<String>()
+                    .cloned()
+                    .or_else(|| p.downcast_ref::<&str>().map(|s| s.to_string()))
+                    .unwrap_or_else(|| "<non-string panic>".into()),
+            ),
+        }
+    }
+
+    /// all string literals of a token stream (values, unescaped)
+    pub fn string_literals(ts: TokenStream, out: &mut Vec<String>) {
+        for tt in ts {
+            match tt {
+                TokenTree::Group(g) => string_literals(g.stream(), out),
+                TokenTree::Literal(l) => {
+                    if let Ok(syn::Lit::Str(s)) = syn::parse_str::<syn::Lit>(&l.to_string()) {
+                        out.push(s.value());
+                    }
+                }
+                _ => (),
+            }
+        }
+    }
+
+    /// canonical form of an expansion that forgets statement order (the order of the dependency
+    /// statements and where-predicates depends on the hash seed of the macro process): the sorted
+    /// multiset of leaf tokens.
+    pub fn canon(ts: TokenStream) -> Vec<String> {
+        fn walk(ts: TokenStream, out: &mut Vec<String>) {
+            for tt in ts {
+                match tt {
+                    TokenTree::Group(g) => {
+                        out.push(format!("{:?}", g.delimiter()));
+                        walk(g.stream(), out);
+                    }
+                    other => out.push(other.to_string()),
+                }
+            }
+        }
+        let mut out = vec![];
+        walk(ts, &mut out);
+        out.sort();
+        out
+    }
+
+    pub fn fnv(s: &str) -> u64 {
+        let mut h: u64 = 0xcbf29ce484222325;
+        for b in s.as_bytes() {
+            h ^= *b as u64;
+            h = h.wrapping_mul(0x100000001b3);
+        }
+        h
+    }
+
+    pub fn seed_bytes(seed: u64) -> [u8; 32] {
+        let mut b = [0u8; 32];
+        for i in 0..4 {
+            b[i * 8..i * 8 + 8]
+                .copy_from_slice(&(seed.wrapping_add(i as u64).wrapping_mul(0x9E3779B97F4A7C15)).to_le_bytes());
+        }
+        b
+    }
+
+    #[derive(Default)]
+    pub struct Report {
+        pub evaluations: u64,
+        pub nontrivial: u64,
+        pub excluded_known: u64,
+        pub discarded: u64,
+        pub labels: BTreeMap<String, u64>,
+        pub samples: Vec<Value>,
+        pub failures: Vec<Value>,
+        pub extra: BTreeMap<String, Value>,
+    }
+
+    impl Report {
+        pub fn label(&mut self, l: &str) {
+            *self.labels.entry(l.to_string()).or_default() += 1;
+        }
+        pub fn push_failure(&mut self, f: Value) {
+            let sig = f["signature"].as_str().unwrap_or("").to_string();
+            if self.failures.iter().filter(|x| x["signature"].as_str().unwrap_or("") == sig).count() < 2 {
+                self.failures.push(f);
+            }
+        }
+        pub fn merge(&mut self, o: Report) {
+            self.evaluations += o.evaluations;
+            self.nontrivial += o.nontrivial;
+            self.excluded_known += o.excluded_known;
+            self.discarded += o.discarded;
+            for (k, v) in o.labels {
+                *self.labels.entry(k).or_default() += v;
+            }
+            for s in o.samples {
+                if self.samples.len() < 10 {
+                    self.samples.push(s);
+                }
+            }
+            for f in o.failures {
+                self.push_failure(f);
+            }
+            for (k, v) in o.extra {
+                self.extra.insert(k, v);
+            }
+        }
+        pub fn to_json(&self) -> Value {
+            json!({
+                "evaluations": self.evaluations, "nontrivial": self.nontrivial,
+                "excluded_known": self.excluded_known, "discarded": self.discarded,
+                "labels": self.labels, "samples": self.samples, "failures": self.failures, "extra": self.extra,
+            })
+        }
+    }
+
+    /// the failure json is carried through proptest's error message
+    pub fn parse_failure(msg: &str) -> Value {
+        if msg.starts_with("Test aborted") {
+            return json!({"signature": "harness-abort", "message": msg});
+        }
+        if let Some(start) = msg.find('{') {
+            let mut it = serde_json::Deserializer::from_str(&msg[start..]).into_iter::<Value>();
+            if let Some(Ok(v)) = it.next() {
+                return v;
+            }
+        }
+        json!({"signature": "unparsed", "message": msg})
+    }
+
+    pub fn features() -> Value {
+        json!({"serde_compat": cfg!(feature = "serde-compat"), "no_serde_warnings": cfg!(feature = "no-serde-warnings")})
+    }
+
+    /// Acts as `main`: mode, tier, seed and output file come from the environment.
+    #[test]
+    fn verif_main() {
+        let Ok(mode) = std::env::var("VERIF_E1_MODE") else { return };
+        let tier = std::env::var("VERIF_E1_TIER").unwrap_or_else(|_| "quick".into());
+        let seed: u64 = std::env::var("VERIF_SEED").ok().and_then(|s| s.parse().ok()).unwrap_or(1);
+        let out = std::env::var("VERIF_E1_OUT").expect("VERIF_E1_OUT");
+        let exclude: Vec<String> = std::env::var("VERIF_E1_EXCLUDE")
+            .unwrap_or_default()
+            .split(',')
+            .filter(|s| !s.is_empty())
+            .map(|s| s.to_string())
+            .collect();
+        std::panic::set_hook(Box::new(|_| {}));
+        let report = match mode.as_str() {
+            "c09" => c09_run(&tier, seed, &exclude),
+            "c16" => c16_run(&tier, seed, &exclude),
+            "c10" => c10_run(&tier, seed, &exclude),
+            "replay" => {
+                let case: Value =
+                    serde_json::from_str(&std::fs::read_to_string(std::env::var("VERIF_E1_REPLAY").unwrap()).unwrap()).unwrap();
+                let mut r = Report::default();
+                r.evaluations = 1;
+                let f = match case["kind"].as_str() {
+                    Some("c09") => c09_replay(&case),
+                    Some("c16") => c16_replay(&case),
+                    Some("c10") => c10_replay(&case),
+                    _ => Some(json!({"signature": "bad-replay", "message": "unknown replay kind"})),
+                };
+                if let Some(f) = f {
+                    r.failures.push(f);
+                }
+                r
+            }
+            "expand" => {
+                // batch expansion service: one item per entry of a json array; answers
+                // ok / err / panic / notanitem per item (used as pre-screen by the corpus engine)
+                let items: Vec<String> =
+                    serde_json::from_str(&std::fs::read_to_string(std::env::var("VERIF_E1_REPLAY").unwrap()).unwrap()).unwrap();
+                let mut r = Report::default();
+                let verdicts: Vec<Value> = items
+                    .iter()
+                    .map(|src| match expand(src) {
+                        Expanded::Ok(_) => json!("ok"),
+                        Expanded::Err(e) => json!({"err": e}),
+                        Expanded::Panic(p) => json!({"panic": p}),
+                        Expanded::NotAnItem(e) => json!({"notanitem": e}),
+                    })
+                    .collect();
+                r.evaluations = items.len() as u64;
+                r.extra.insert("verdicts".into(), json!(verdicts));
+                r
+            }
+            other => panic!("unknown mode {other}"),
+        };
+        let mut j = report.to_json();
+        j["features"] = features();
+        std::fs::write(out, serde_json::to_string_pretty(&j).unwrap()).unwrap();
+    }
+}
